@@ -136,6 +136,9 @@ impl Property for C03 {
             Tier::Thorough => Budget { cases: 150_000, shards: 16, min_len: 24, max_len: 200 },
         }
     }
+    fn fuzz_targets(&self) -> Vec<(&'static str, u64, usize)> {
+        vec![("prop", 400_000, 200)]
+    }
     fn rule(&self) -> String {
         "bytes -> 1-2 breaker rules (strategy in SlowRequestRatio/ErrorRatio/ErrorCount, min_request_amount 0..4, thresholds on the decision boundary, window 200/1000 ms x 1/2/4 buckets, retry 50/300/1500 ms, max_allowed_rt 0/10 ms), optional isolation rule (threshold 1-2) so that a probe can be rejected by another rule, 4-40 events enter / complete(any in-flight entry, ok|error; slow = exit later than max_rt after entry) / advance(menu: 1, bucket-1, bucket, window/2, window, window+1, retry-1, retry, retry+1, max_rt, max_rt+1); after every event the build() result, every breaker's current_state() and the whole listener log are compared with the BreakerModel; non-trivial = trace visits Open and Half-Open and contains a completion arriving in a state different from the one its entry was admitted in; distinct = distinct decoded cases".into()
     }
